@@ -749,10 +749,19 @@ DEEP_EQ[BlockV] = lambda E, a, b: (deep_eq(E, a.obj, b.obj) if (a.obj is not Non
 # =======================================================================================
 # key-value maps (HAMT / AMT / KAMT)
 
+ALIASES = {'ChainEpoch': 'i64', 'ActorID': 'u64', 'MethodNum': 'u64', 'SectorNumber': 'u64', 'DealID': 'u64',
+           'AllocationID': 'u64', 'ClaimID': 'u64'}
+
+
 def key_term(E, v):
     v = E.deref(v)
     if isinstance(v, LazyV):
         v = E.materialize(v.ty, v.name)
+    if isinstance(v, LazyV):
+        inner = srcindex.newtype_table().get(type_head(v.ty))
+        if inner is not None:
+            inner = ALIASES.get(inner, inner)
+            v = E.materialize(inner, v.name + '.0')
     if isinstance(v, AddrV):
         return ('addr', v.proto, v.key)
     if isinstance(v, IntV):
@@ -1797,3 +1806,51 @@ AS_ITER[MapM] = _map_iter
 @model('Hamt::iter', 'HamtImpl::iter', 'Kamt::iter', 'AmtImpl::iter', 'Amt::iter')
 def _(E, c):
     return iter_obj(_map_iter(E, map_of(E, c.args[0])))
+
+
+# =======================================================================================
+# RegisteredSealProof / RegisteredPoStProof <-> i64 (tables read from fvm_shared's i64_conversion! blocks)
+
+import functools
+import glob
+import os
+
+
+@functools.lru_cache(maxsize=None)
+def _proof_tables():
+    out = {}
+    for p in glob.glob(os.path.expanduser('~/.cargo/registry/src/*/fvm_shared-4.8.2/src/sector/registered_proof.rs')):
+        src = open(p).read()
+        for m in re.finditer(r'i64_conversion!\s*\{\s*(\w+);(.*?)\n\}', src, re.S):
+            tbl = {}
+            for mm in re.finditer(r'(\w+)\s*=>\s*(\d+)\s*,', m.group(2)):
+                tbl[mm.group(1)] = int(mm.group(2))
+            out[m.group(1)] = tbl
+    return out
+
+
+@model('re:^<i64 as From>::from$')
+def _(E, c):
+    mm = re.search(r'From<(?:.*::)?(RegisteredSealProof|RegisteredPoStProof|RegisteredAggregateProof|RegisteredUpdateProof)>', c.callee.trait_full or '')
+    if not mm:
+        return NotImplemented
+    tbl = _proof_tables().get(mm.group(1))
+    if tbl is None:
+        raise Inconclusive('no i64 table for %s' % mm.group(1))
+    n, v = variant(E, c.args[0])
+    if n == 'Invalid':
+        return payload(E, v, 'Invalid', 0, 'i64')
+    return IntV(tbl[n], 'i64')
+
+
+@model('re:^<(RegisteredSealProof|RegisteredPoStProof|RegisteredAggregateProof|RegisteredUpdateProof) as From>::from$')
+def _(E, c):
+    h = type_head(c.callee.qself)
+    tbl = _proof_tables().get(h)
+    x = E.deref(c.args[0])
+    if not isinstance(x, IntV) or tbl is None:
+        return NotImplemented
+    for name, val in tbl.items():
+        if E.ctx.branch(x.v == val):
+            return mk_enum(h, h, name)
+    return mk_enum(h, h, 'Invalid', [x])
